@@ -53,10 +53,10 @@ def search(chk, n):
         d2 = d * d
         N = rng.randint(1, 4)
         nenv = rng.choice([1, 2, 2, 3])
-        commuting = rng.random() < 0.5
+        commuting = rng.random() < 0.5 and it != 3
         pts = []
-        for _ in range(nenv):
-            pts.append(float_pt(rng, d, N, 3, rank3=commuting, transforms=(not commuting and rng.random() < 0.4)))
+        for j_ in range(nenv):
+            pts.append(float_pt(rng, d, N, 3, rank3=commuting, transforms=(not commuting and (rng.random() < 0.4 or (it == 3 and j_ == 0)))))
         props = [(rand_complex(rng, (d2, d2), .5), rand_complex(rng, (d2, d2), .5)) for _ in range(N)]
         rho0 = rand_complex(rng, (d, d))
         envs = [dict(mpos=[mpo_transformed(m, p.tin, p.tout) for m in p.mpos], caps=p.caps) for p in pts]
@@ -100,7 +100,29 @@ def search(chk, n):
             for b_ in built:
                 look_at(b_)
             history.append("read-only accessors called before the computation")
+        files = []
+        if it % 4 == 3:
+            # every run (it == 3: a process tensor WITH transforms): one process tensor goes through a file and comes back
+            # through import_process_tensor as 'simple' or 'file'
+            import tempfile, os
+            j_ = 0 if it == 3 else rng.randrange(len(pts))
+            how = "simple" if (it // 4) % 2 == 0 else "file"
+            fn = os.path.join(tempfile.mkdtemp(prefix="c03s_"), "pt.hdf5")
+            files.append(fn)
+            try:
+                built[j_].export(fn, overwrite=True)
+                built[j_] = oqupy.import_process_tensor(fn, process_tensor_type=how)
+            except Exception as ex:
+                chk.fail("export-import-raises:" + how, f"export / import_process_tensor(..., '{how}') raises {ex!r}", {"d": d, "N": N, "seed": chk.seed, "iteration": it})
+                continue
+            history.append(f"environment {j_} exported and imported as '{how}' (transforms: {pts[j_].tin is not None})")
         got = impl_states(d, pts, props, rho0, N, ctrl=ctrl, record_all=rec_all, start_time=start_t, built=built)
+        for fn in files:
+            import shutil
+            for b_ in built:
+                if hasattr(b_, "close"):
+                    b_.close()
+            shutil.rmtree(os.path.dirname(fn), ignore_errors=True)
         if not rec_all:
             want = want[-1:]
         chk.search_cases += 1
